@@ -8,7 +8,7 @@ for d in sorted(glob.glob('/verif/seeded/C*-*'), key=lambda x: (x.split('/')[-1]
     m = json.load(open(d + '/meta.json'))
     name = d.split('/')[-1]
     n = int(name.split('-')[1])
-    rnd = "1" if n <= 2 else ("2" if n <= 4 else ("3" if n <= 6 else ("4" if n <= 8 else ("7" if n >= 11 else "5" if name.split('-')[0] in ("C01", "C03", "C04", "C05", "C07", "C08", "C10", "C12", "C14", "C18") else "6"))))
+    rnd = "8" if n >= 13 else "1" if n <= 2 else ("2" if n <= 4 else ("3" if n <= 6 else ("4" if n <= 8 else ("7" if n >= 11 else "5" if name.split('-')[0] in ("C01", "C03", "C04", "C05", "C07", "C08", "C10", "C12", "C14", "C18") else "6"))))
     summ = (m.get('summary') or '').replace('\n', ' ').replace('|', '/')[:140]
     det = m.get('detected_by_quick') or {}
     fv = m.get('first_violation') or {}
